@@ -7,7 +7,12 @@ from typing_extensions import List, Optional
 
 
 @dataclass(eq=False)
-class Leaf:
+class Root:
+    """a mapped class without fields at the top of every hierarchy (as Symbol is in models built on krrood)"""
+
+
+@dataclass(eq=False)
+class Leaf(Root):
     uid: int = 0
     n: int = 0
     s: str = ""
@@ -20,7 +25,7 @@ class Leaf:
 
 
 @dataclass(eq=False)
-class Holder:
+class Holder(Root):
     uid: int = 0
     leaf: Leaf = None
     other: Optional[Leaf] = None
@@ -36,8 +41,14 @@ class SubHolder(Holder):
     bonus: int = 0
 
 
+@dataclass(eq=False, repr=False)
+class SideHolder(Holder):
+    """a sibling of SubHolder: both keep the inherited fields in the table of Holder"""
+    side: int = 0
+
+
 @dataclass(eq=False)
-class Tag:
+class Tag(Root):
     uid: int = 0
     leaf: Leaf = None
     w: int = 0
@@ -47,7 +58,7 @@ class Tag:
 
 
 @dataclass(eq=False)
-class Top:
+class Top(Root):
     uid: int = 0
     holder: Holder = None
     backup: Holder = None
@@ -57,4 +68,4 @@ class Top:
         return f"Top#{self.uid}"
 
 
-VERIF_CLASSES = [Leaf, Holder, SubHolder, Tag, Top]
+VERIF_CLASSES = [Root, Leaf, Holder, SubHolder, SideHolder, Tag, Top]
